@@ -46,6 +46,58 @@ func declares(f *ast.File, c *LConv) bool {
 	return false
 }
 
+// duplicateDecl names a package-level identifier (or method) that a file declares twice.
+func duplicateDecl(f *ast.File) string {
+	seen := map[string]bool{}
+	note := func(k string) string {
+		if seen[k] {
+			return k
+		}
+		seen[k] = true
+		return ""
+	}
+	for _, d := range f.Decls {
+		switch x := d.(type) {
+		case *ast.FuncDecl:
+			if x.Name.Name == "init" || x.Name.Name == "_" {
+				continue
+			}
+			k := "func " + x.Name.Name
+			if x.Recv != nil && len(x.Recv.List) == 1 {
+				t := x.Recv.List[0].Type
+				if st, ok := t.(*ast.StarExpr); ok {
+					t = st.X
+				}
+				if id, ok := t.(*ast.Ident); ok {
+					k = "method " + id.Name + "." + x.Name.Name
+				}
+			}
+			if r := note(k); r != "" {
+				return r
+			}
+		case *ast.GenDecl:
+			for _, sp := range x.Specs {
+				switch y := sp.(type) {
+				case *ast.TypeSpec:
+					if r := note("func " + y.Name.Name); r != "" { // types, funcs, vars share one namespace
+						return "type " + y.Name.Name
+					}
+				case *ast.ValueSpec:
+					for _, n := range y.Names {
+						if n.Name == "_" {
+							continue
+						}
+						if r := note("func " + n.Name); r != "" {
+							return "identifier " + n.Name
+						}
+					}
+				}
+			}
+		}
+	}
+	return ""
+}
+
 // JudgeC15: each converter lands in the configured file and package; nothing else is written.
 func JudgeC15(c *Ctx, h *History, obs []*Obs) ([]Violation, error) {
 	var out []Violation
@@ -188,6 +240,10 @@ func JudgeC15(c *Ctx, h *History, obs []*Obs) ([]Violation, error) {
 				add(cls, fmt.Sprintf("%s has `package %s`, model (output:package / existing package / normalised directory) says `package %s`", p, f.Name.Name, pkgOf[p].PkgName))
 				break
 			}
+			if dup := duplicateDecl(f); dup != "" {
+				add("merged-file-not-well-formed", fmt.Sprintf("%s declares %s more than once (%d converters merged into it)", p, dup, len(pred[p])))
+				break
+			}
 			for _, cv := range pred[p] {
 				// a converter written into another package than the one declaring it must
 				// import that package (its types, and for variables the variables, live there)
@@ -312,7 +368,7 @@ func CheckC15(c *Ctx) (*Outcome, error) {
 		nLayouts, nHist = 4000, 800
 	}
 	note := c.noteObs("c15aux")
-	opts := LayoutOpts{CustomTags: true, Absolute: true, Guarded: true, UserPkgs: true, GuardedUser: true, GlobalOutFile: true, Symlinks: true}
+	opts := LayoutOpts{CustomTags: true, Absolute: true, Guarded: true, UserPkgs: true, GuardedUser: true, GlobalOutFile: true, Symlinks: true, Common: true}
 	onObs := func(h *History, obs []*Obs) {
 		note(h, obs)
 		for _, o := range obs {
